@@ -85,6 +85,13 @@ CHECKS = {
                      'are checked on hostile formulas with eval/exec/open/compile/print/os.system wrapped',
                 note='formula grammar bounded by operator count and 7 leaves; minor failure under a formula is not defined '
                      'by the statement and not compared'),
+    'C12': dict(engine='E1-cluster', category='model_checking', technique=E1, ref='DESIGN.md section 4, C12',
+                text='process activity (direct Supervisor starts / stops, exits, backoffs, starts by Supvisors) is explored during '
+                     'cold starts, in OPERATION, with a late join, crashes, restarts and a healed partition; at every quiescent '
+                     'state the process views of all live connected instances are compared pairwise and with the true Supervisor '
+                     'process tables',
+                note='signatures carry an event-during-handshake qualifier so that the known handshake-window finding does not '
+                     'mask losses in steady state; which stopped-like state is shown is not compared'),
     'C14': dict(engine='E2-seq', category='exploration', technique='bounded-exhaustive input enumeration on real Context '
                 'objects of a live (handshaken) cluster against a set-valued reference model',
                 ref='DESIGN.md section 4, C14',
